@@ -3,7 +3,7 @@
    Panic is unreachable for EVERY byte string and EVERY option combination.  Termination
    is by construction: every model function is structurally recursive. *)
 From Coq Require Import List Ascii String.
-From GT Require Import Base.GoStr Md.Parser Tree.Tree Tree.Gen Api.Simple Api.Faults Api.Wasm Proofs.NoPanic.
+From GT Require Import Base.GoStr Md.Parser Tree.Tree Tree.Gen Api.Simple Api.Programmable Api.Faults Api.Wasm Proofs.NoPanic Proofs.Extras.
 Import ListNotations.
 
 Theorem C12_no_panic_output : forall c input, snd (output_md c input) <> Panic.
@@ -22,6 +22,13 @@ Print Assumptions C12_no_panic_walk.
 Theorem C12_no_panic_wasm : forall c input, snd (wasm_output c input) <> Panic.
 Proof. exact wasm_output_no_panic. Qed.
 Print Assumptions C12_no_panic_wasm.
+
+(* mkdir and verify from Markdown never panic either, in any file-system state *)
+Theorem C12_no_panic_fs : forall w c strict dir doc,
+  out_panics (snd (pstep w (PMdMkdir c dir doc))) = false /\
+  out_panics (snd (pstep w (PMdVerify c strict dir doc))) = false.
+Proof. exact md_fs_ops_no_panic. Qed.
+Print Assumptions C12_no_panic_fs.
 
 (* empty or blank-only input: empty output and nil, every option combination *)
 Theorem C12_blank : forall c input rows,
